@@ -67,6 +67,11 @@ func (c *Cluster) MakeDeposit(asset AssetSpec, amount common.Integer, extTx stri
 	return ver, c.coinOf(ver, 0, owners, threshold)
 }
 
+// CoinOf exposes output `index` of a transaction as a spendable coin.
+func (c *Cluster) CoinOf(ver *common.VersionedTransaction, index int, owners []int, threshold uint8) *Coin {
+	return c.coinOf(ver, index, owners, threshold)
+}
+
 func (c *Cluster) coinOf(ver *common.VersionedTransaction, index int, owners []int, threshold uint8) *Coin {
 	out := ver.Outputs[index]
 	return &Coin{
